@@ -48,9 +48,37 @@ pub struct Case {
     /// one with the seeded RNG: the order in which a description's gates are created is part of the behaviour
     #[serde(default)]
     pub ndl: bool,
+    /// between the two executions another simulation of this process crashes: a processing element panics, run()
+    /// unwinds with the runtime alive (des' global lock is left poisoned); the next seeded run must not notice
+    #[serde(default)]
+    pub crash_between: bool,
 }
 
 pub struct C04;
+
+/// A simulation whose run() unwinds.
+fn crash_once() {
+    struct Boom;
+    impl des::net::processing::ProcessingElement for Boom {
+        fn incoming(&mut self, _: Message) -> Option<Message> {
+            panic!("injected fault in a processing element");
+        }
+    }
+    struct Idle;
+    impl Module for Idle {
+        fn at_sim_start(&mut self, _: usize) {
+            schedule_in(Message::default(), Duration::from_millis(1));
+        }
+    }
+    let mut sim = Sim::new(()).with_stack(|| {
+        let mut s = des::net::processing::ProcessingStack::default();
+        s.append(Boom);
+        s
+    });
+    sim.node("x", Idle);
+    let rt = Builder::seeded(1).quiet().build(sim.freeze());
+    let _ = catch(|| rt.run());
+}
 
 const NDL_NET: &str = r#"
 entry: Net
@@ -345,6 +373,9 @@ pub fn run_case(case: &Case) -> Result<(bool, Vec<&'static str>), Failure> {
     let t1 = trace_of(case, case.seed);
     // unrelated simulations in between: global id counters, allocator state and RNG have moved on
     let _ = c13::canonical_followup()?;
+    if case.crash_between {
+        crash_once();
+    }
     let t2 = trace_of(case, case.seed);
     vensure!(
         t1 == t2,
@@ -417,6 +448,9 @@ pub fn run_case(case: &Case) -> Result<(bool, Vec<&'static str>), Failure> {
     if case.ndl {
         labels.push("network-built-from-an-NDL-description");
     }
+    if case.crash_between {
+        labels.push("another-simulation-crashed-in-between");
+    }
     if case.seed == 0 || case.seed == u64::MAX {
         labels.push("boundary-seed");
     }
@@ -438,7 +472,7 @@ impl Prop for C04 {
          shutting themselves down and restarting (new runtime, the task starts over); random start delays; in a quarter of the cases also a three-station ring built from an NDL description whose modules enumerate their gates and pick one at random; generated \
          Builder::seeded seed (0, 1 and u64::MAX over-sampled). Oracle (differential): the complete trace (time, module path, event kind, message ids, random values, select \
          branches, forwarding choices) plus final time, event count and result must be identical for two runs in the same worker process \
-         (with an unrelated simulation in between) and, for every 8th case, for a run in a freshly spawned process. Counted, not asserted: a \
+         (with an unrelated simulation in between, in a fifth of the cases also one whose run() unwinds because a processing element panics) and, for every 8th case, for a run in a freshly spawned process. Counted, not asserted: a \
          different seed changes the trace. Non-trivial iff the trace contains a random draw, an unbiased select decision and a message that \
          crossed a jittered channel."
             .into()
@@ -476,8 +510,9 @@ impl Prop for C04 {
             0u8..10,
             proptest::bool::weighted(0.3),
             proptest::bool::weighted(0.25),
+            proptest::bool::weighted(0.2),
         )
-            .prop_map(|(seed, mods, jitter_us, latency_us, chords, ttl, emit_at_end, ndl)| Case {
+            .prop_map(|(seed, mods, jitter_us, latency_us, chords, ttl, emit_at_end, ndl, crash_between)| Case {
                 seed,
                 mods,
                 jitter_us,
@@ -486,6 +521,7 @@ impl Prop for C04 {
                 ttl,
                 emit_at_end,
                 ndl,
+                crash_between,
             })
             .boxed()
     }
